@@ -38,6 +38,12 @@ class Describer:
                 sd = self.fn.single_def(pl["local"])
                 if sd and sd[1] != "term" and sd[2].get("k") == "assign" and sd[2]["rv"]["k"] == "use" and sd[2]["rv"]["op"]["k"] in ("copy", "move"):
                     pl = sd[2]["rv"]["op"]["place"]
+            if [e["k"] for e in pl["proj"]] == ["deref"] and idx_local is not None:
+                # `*k` where (i, k) is the item of one `enumerate()` iteration and i is the index written: element i
+                ri = _iter_item(self, idx_local)
+                rk = _iter_item(self, pl["local"])
+                if ri is not None and rk is not None and ri[0] == ("index",) and rk[0][0] == "elemof" and ri[2] == rk[2]:
+                    return ("elem", _elem_base(rk[0][1]))
             if any(e["k"] == "index" for e in pl["proj"]):
                 base = {"local": pl["local"], "proj": [e for e in pl["proj"] if e["k"] != "index"]}
                 if not same_index(pl):
@@ -346,6 +352,9 @@ def loop_index(D, local):
             ie = ie[3][0]
     if ie[0] == "agg" and (ie[1] or "").endswith("ops::Range") and len(ie[3]) == 2:
         return ("range", D.num(ie[3][0]), D.num(ie[3][1]))
+    r = _iter_item(D, local)
+    if r is not None and r[0] == ("index",):
+        return r[1]
     return None
 
 
@@ -388,12 +397,12 @@ def _iter_item(D, local):
         if not (isinstance(item, tuple) and item and item[0] == "tuple" and f in ("0", "1")):
             return None
         item = item[1 + int(f)]
-    if not (isinstance(item, tuple) and item[0] == "elemof"):
+    if not (isinstance(item, tuple) and item[0] in ("elemof", "index")):
         return None
     lens = _leaf_lengths(shape)
     if lens is None or len(set(lens)) != 1:
         return None
-    return item, ("range", 0, lens[0])
+    return item, ("range", 0, lens[0]), root[1]
 
 
 def _iter_shape(D, e):
@@ -405,6 +414,9 @@ def _iter_shape(D, e):
             return _iter_shape(D, e[3][0])
         if (d.endswith("<impl [T]>::iter_mut") or d.endswith("<impl [T]>::iter")) and e[3]:
             return ("iter", D.d(e[3][0]))
+        if d.endswith("iter::Iterator::enumerate") and len(e[3]) == 1:
+            a = _iter_shape(D, e[3][0])
+            return None if a is None else ("enum", a)
         if d.endswith("iter::Iterator::zip") and len(e[3]) == 2:
             a, b = _iter_shape(D, e[3][0]), _iter_shape(D, e[3][1])
             if a is None or b is None:
@@ -421,6 +433,8 @@ def _iter_shape(D, e):
 def _item_of(shape):
     if shape[0] == "iter":
         return ("elemof", shape[1])
+    if shape[0] == "enum":
+        return ("tuple", ("index",), _item_of(shape[1]))
     return ("tuple", _item_of(shape[1]), _item_of(shape[2]))
 
 
@@ -430,6 +444,8 @@ def _leaf_lengths(shape):
     if shape[0] == "zip":
         a, b = _leaf_lengths(shape[1]), _leaf_lengths(shape[2])
         return None if a is None or b is None else a + b
+    if shape[0] == "enum":
+        return _leaf_lengths(shape[1])
     d = shape[1]
     if isinstance(d, tuple) and d and d[0] == "slice":
         if d[2][0] == "to":
@@ -454,9 +470,9 @@ def zipped_elem_event(D, fn, s):
     `L[i] = op(L[i], K[i])` for every i of the common length"""
     p = s["place"]["local"]
     r = _iter_item(D, p)
-    if r is None:
+    if r is None or r[0][0] != "elemof":
         return None
-    item, rng = r
+    item, rng, _root = r
     base = _elem_base(item[1])
     if not (isinstance(base, tuple) and base[0] == "at" and isinstance(base[1], str) and base[1].startswith("local#")):
         return None
@@ -471,7 +487,7 @@ def zipped_elem_event(D, fn, s):
                 pl = sd[2]["rv"]["op"]["place"]
         if [e["k"] for e in pl["proj"]] == ["deref"]:
             r2 = _iter_item(D, pl["local"])
-            if r2 is not None and r2[1] == rng:
+            if r2 is not None and r2[0][0] == "elemof" and r2[1] == rng:
                 return ("elem", _elem_base(r2[0][1]))
         return ("?",)
     rv = s["rv"]
@@ -515,6 +531,41 @@ def canon_slices(x):
     if isinstance(x, frozenset):
         return frozenset(canon_slices(e) for e in x)
     return x
+
+
+COMPOUND_OPS = {"ops::BitXorAssign::bitxor_assign": "BitXor", "ops::AddAssign::add_assign": "Add", "ops::BitOrAssign::bitor_assign": "BitOr", "ops::BitAndAssign::bitand_assign": "BitAnd"}
+
+
+def compound_assign_event(D, fn, t):
+    """`L[i] op= *k` on integers with a reference right-hand side is a call to `<u8 as OpAssign<&u8>>::op_assign(&mut L[i], k)`:
+    the same element update as the statement form `L[i] = op(L[i], *k)`"""
+    d = t["callee"].get("def") or ""
+    op = next((v for k, v in COMPOUND_OPS.items() if d.endswith(k)), None)
+    if op is None or len(t["args"]) != 2 or "<u8 as" not in str(t["callee"].get("resolved") or ""):
+        return None
+    a0, a1 = t["args"]
+    if a0.get("k") not in ("move", "copy") or a0["place"]["proj"]:
+        return None
+    sd = fn.single_def(a0["place"]["local"])
+    if not sd or sd[1] == "term" or sd[2].get("k") != "assign" or sd[2]["rv"]["k"] != "ref":
+        return None
+    pl = sd[2]["rv"]["place"]
+    if [e["k"] for e in pl["proj"]] != ["index"] or fn.local_ty(pl["local"])["k"] != "array":
+        return None
+    l = pl["local"]
+    idx_local = pl["proj"][0]["local"]
+    idx = loop_index(D, idx_local) or D.num(strip_bb(D.R.local(idx_local)))
+    rhs = ("?",)
+    if a1.get("k") in ("move", "copy") and not a1["place"]["proj"]:
+        kl = a1["place"]["local"]
+        sd1 = fn.single_def(kl)
+        if sd1 and sd1[1] != "term" and sd1[2].get("k") == "assign" and sd1[2]["rv"]["k"] == "use" and sd1[2]["rv"]["op"].get("k") in ("move", "copy") and not sd1[2]["rv"]["op"]["place"]["proj"]:
+            kl = sd1[2]["rv"]["op"]["place"]["local"]
+        ri = _iter_item(D, idx_local)
+        rk = _iter_item(D, kl)
+        if ri is not None and rk is not None and ri[0] == ("index",) and rk[0][0] == "elemof" and ri[2] == rk[2]:
+            rhs = ("elem", _elem_base(rk[0][1]))
+    return ("elem", "local#%d" % l, (idx, (op, ("elem", ("at", "local#%d" % l)), rhs)))
 
 
 def distribute_ints(desc):
@@ -601,7 +652,10 @@ def body_events(fn, G, D, pts, want_call=lambda d: True):
         t = b["term"]
         if t["k"] == "call":
             d = t["callee"].get("def") or ""
-            if want_call(d):
+            ev = compound_assign_event(D, fn, t)
+            if ev is not None:
+                evs.append(ev + (bi, t, 10 ** 6))
+            elif want_call(d):
                 evs.append(("call", d, tuple(D.op(a) for a in t["args"]), bi, t, 10 ** 6))
 
     def cmp(a, b):
